@@ -8,6 +8,7 @@ import (
 	"github.com/els0r/goProbe/v4/cmd/goProbe/config"
 	"github.com/els0r/goProbe/v4/pkg/capture/capturetypes"
 	"github.com/els0r/goProbe/v4/pkg/types/hashmap"
+	"github.com/fako1024/gotools/link"
 )
 
 // VerifNewCapture forwards to newCapture: a Capture with an empty flow log and
@@ -46,3 +47,16 @@ const VerifBufElementAddSize = bufElementAddSize
 // VerifRotate forwards to the unexported Capture.rotate, the call the Manager
 // makes under the capture lock (returns nil for an empty flow log; C20).
 func (c *Capture) VerifRotate(ctx context.Context) *hashmap.AggFlowMap { return c.rotate(ctx) }
+
+// VerifSetHostLinks installs fn in the package's host-link lister variable (the
+// seam the repository's own manager tests assign to) and returns a function
+// restoring the previous lister (C27).
+func VerifSetHostLinks(fn func(...string) (link.Links, error)) (restore func()) {
+	old := hostLinks
+	hostLinks = fn
+	return func() { hostLinks = old }
+}
+
+// VerifConfig returns the configuration the capture was created with, i.e. what
+// its source init function reads (read only; C27).
+func (c *Capture) VerifConfig() config.CaptureConfig { return c.config }
